@@ -143,10 +143,25 @@ theorem load_finish_ok_of_wf {sd : SchemaDoc} {st : LState} (W : WfState sd st) 
   exact ⟨_, finish_eq_ok hsingle h0 h1 (load_validateTypeDefinitions_ok_of_wf W)
     (load_validateDirectiveDefinitions_ok_of_wf W)⟩
 
-/-- **completeness of the loader**: a well-formed merged document loads -/
-theorem load_complete {sd : SchemaDoc} (h : Spec.WellFormed sd) (hm : MergedDoc sd) : ∃ s, load sd = .ok s := by
-  obtain ⟨st, hb⟩ := load_buildState_ok_of_wf h hm
-  obtain ⟨s, hs⟩ := load_finish_ok_of_wf (st := st) ⟨h, hm, hb⟩
+/-- completeness from the two facts about the directive map it needs -/
+theorem load_complete_of {sd : SchemaDoc} (h : Spec.WellFormed sd) (hext : ∀ e ∈ sd.extensions, e.builtIn = false)
+    (hdirs : ∃ r, declareDirectives sd.directives [] = .ok r)
+    (hdirEq : ∀ st, buildState sd = .ok st → ∀ n, (Spec.TypeSystem.ofDoc sd).directive? n = st.directives.lookup n) :
+    ∃ s, load sd = .ok s := by
+  obtain ⟨st, hb⟩ := load_buildState_ok_of h hdirs
+  obtain ⟨s, hs⟩ := load_finish_ok_of_wf (st := st) ⟨h, hext, hb, hdirEq st hb⟩
   exact ⟨s, by unfold load; rw [hb]; exact hs⟩
+
+/-- **completeness of the loader**: a well-formed merged document loads -/
+theorem load_complete {sd : SchemaDoc} (h : Spec.WellFormed sd) (hm : MergedDoc sd) : ∃ s, load sd = .ok s :=
+  load_complete_of h hm.extNotBuiltin (load_declareDirectives_ok_of_wf h.uniqueDirectiveNames hm)
+    (fun _ hb => spec_directive_eq_of_merged hb h.uniqueDirectiveNames hm)
+
+/-- … and so does a well-formed document in which no directive name is declared twice (the hypotheses of
+    the soundness theorem `load_wellFormed`; nothing about the order of the sources is needed then) -/
+theorem load_complete_distinct {sd : SchemaDoc} (h : Spec.WellFormed sd)
+    (hext : ∀ e ∈ sd.extensions, e.builtIn = false) (hd : DirectiveNamesDistinct sd) : ∃ s, load sd = .ok s :=
+  load_complete_of h hext ⟨_, declareDirectives_distinct (l := sd.directives) (acc := []) (by simp) hd⟩
+    (fun _ hb => spec_directive_eq hb hd)
 
 end Gql.Load
